@@ -517,6 +517,13 @@ class LessParser(object):
     def p_variable_decl(self, p):
         """ variable_decl            : variable t_colon style_list t_semicolon
         """
+        if isinstance(p[1], list):
+            # `-@a: 1px;`: a negated variable is a value, not a name
+            self.handle_error(
+                'Cannot define a negated variable `%s`' % ''.join(
+                    utility.flatten(p[1])).strip(), p.lineno(2))
+            p[0] = None
+            return
         p[0] = Variable(list(p)[1:-1], p.lineno(4))
         p[0].parse(self.scope)
 
